@@ -211,6 +211,38 @@ def pipeline(chk):
     finally:
         pair.close()
 
+    # ---------------- S2c: three and four members each holding one version of the same id, in every attachment order: the composite answers with the newest, all versions once
+    import itertools
+    for nmem, vers in ((3, [1, 2, 11]), (3, [2, 12, 21]), (4, [1, 2, 11, 21])):
+        recs = [D.mk(11, v, name=1) for v in vers] + [D.mk(21, 1, name=2)]
+        ref = {(r["id"], r["ver"]): D.build(r) for r in recs}
+        for kindsel in (0, 1):
+            dirs = []
+            try:
+                members = []
+                for m in range(nmem):
+                    part = [recs[m]] + ([recs[-1]] if m == 0 else [])
+                    if (m + kindsel) % 2:
+                        members.append(MemorySource([D.in_form("dict", [D.build(r)]) for r in part], allow_custom=True))
+                    else:
+                        dd = tempfile.mkdtemp(prefix="c18o-", dir=chk.scratch)
+                        dirs.append(dd)
+                        sink = stix2.FileSystemSink(dd, allow_custom=True)
+                        for r in part:
+                            sink.add(D.build(r))
+                        members.append(FileSystemSource(dd, allow_custom=True))
+                for order in itertools.permutations(range(nmem)):
+                    comp = CompositeDataSource()
+                    comp.add_data_sources([members[i] for i in order])
+                    tid = 300000 + len(lines)
+                    for front_name, front in (("composite", comp), ("environment", Environment(source=comp))):
+                        lines.append(read_line(tid, "cget", front_name, recs, ref, lambda: front.get(D.sid(11)), id_=11, extra={"member_order": list(order)}))
+                        lines.append(read_line(tid, "call_versions", front_name, recs, ref, lambda: front.all_versions(D.sid(11)), id_=11, extra={"member_order": list(order)}))
+                    lines.append(read_line(tid, "cquery", "composite", recs, ref, lambda: comp.query(), extra={"member_order": list(order), "routes": {}}))
+            finally:
+                for dd in dirs:
+                    shutil.rmtree(dd, ignore_errors=True)
+        chk.traces += 1
     # ---------------- S3: random populations: stores, three filter routes, composites in every attachment order, navigation
     for h in range(12 if quick else 500):
         recs = rand_universe(rng)
